@@ -26,6 +26,7 @@ static void c01_mutate_and_send(Buf *last, int started) {
 }
 static void c04_policy_rounds(Buf *b, int rounds);
 static void scen_c01(int histories, int prefix, int stream) {
+    g_gen_host_rng_ok = 1;
     Buf b = {0}, last = {0}; World w; memset(&w, 0, sizeof w);
     for (int h = 0; h < histories; h++) {
         tr("hist %d profile=%d", h, h % 3); w_reset(&w); g_locality = 0;
